@@ -176,13 +176,64 @@ def trace_interp(ctx, tag, n, mode="mixed", chunks=8, cases_file=None):
     return summ
 
 
-def run_repo_tests(ctx, which, doc):
+def repo_engine_traces(ctx, engine):
+    """Direction A for the compiled engines on the repository's own tests (hook H5): every run of
+    JIT- / Cranelift-compiled code made by tests/ubpf_jit_x86_64.rs, tests/misc.rs (C03) or
+    tests/cranelift.rs (C04) is recorded with its inputs and result; TraceInterp runs the machine
+    from those inputs (silent steps) and compares the result where it judges the run defined."""
+    import testtraces
+    which = ["--test", "ubpf_jit_x86_64", "--test", "misc"] if engine == "jit" else ["--features", "cranelift", "--test", "cranelift"]
+    tdir, failed = run_repo_tests(ctx, which, False, target="repo-tests-target" + ("-cl" if engine == "cl" else ""))
+    paths, nruns, aside, nev = testtraces.convert_dir(tdir, os.path.join(ctx.workdir, f"repo-tests.{engine}.trace"), chunks=1, engines=(engine,))
+    if nruns < 80:
+        raise ToolError(f"only {nruns} runs of {engine}-compiled code were recorded from /repo's tests")
+    devs = sorted({f["key"] for f in core.load_known()["findings"] if "interpreter" in f["where"]})
+    lines = open(paths[0]).read().splitlines()
+    # negative control: one recorded result changed -> rejected at that event
+    k = next(i for i, ln in enumerate(lines) if '"e":"eend"' in ln and i > len(lines) // 2)
+    ev = json.loads(lines[k])
+    ev["val"][0] ^= 1
+    bad = paths[0] + ".negctl"
+    open(bad, "w").write("\n".join(lines[:k] + [json.dumps(ev)] + lines[k + 1:]) + "\n")
+    r, (verdict, a, b) = validate_trace(ctx, f"{ctx.prop}-repo-eng-negctl", bad, devs)
+    if not (verdict == "rejected" and a == k + 1):
+        raise ToolError(f"negative control failed: a changed result of a compiled run was not rejected there ({verdict} at {a}, expected {k + 1})")
+    nbad = 0
+    events = 0
+    attempt = 0
+    while lines and attempt < 8:
+        attempt += 1
+        cur = f"{paths[0]}.try{attempt}"
+        open(cur, "w").write("\n".join(lines) + "\n")
+        r, (verdict, a, b) = validate_trace(ctx, f"{ctx.prop}-repo-eng-{attempt}", cur, devs)
+        ctx.states += r.distinct
+        ctx.transitions += r.generated
+        if verdict == "accepted":
+            events += a
+            break
+        pos = a if verdict == "rejected" else 1
+        starts = [i for i, ln in enumerate(lines) if ln.startswith('{"e":"estart"')]
+        si = max([i for i in starts if i < pos] or [0])
+        nxt = min([i for i in starts if i > si] or [len(lines)])
+        ev = json.loads(lines[min(si + 1, len(lines) - 1)])
+        nbad += 1
+        ctx.violation(f"[{engine}] a run of compiled code made by /repo's own tests returned {json.dumps(ev.get('val'))} / left bytes that the specification's machine does not produce from the same program and input",
+                      {"kind": "trace", "case": json.loads(lines[si])["case"], "event": ev, "engine": engine})
+        events += si
+        lines = lines[:si] + lines[nxt:]
+    ctx.traces += nruns - nbad
+    ctx.evaluations += nruns
+    ctx.extra["repo_tests_compiled_runs"] = {"engine": engine, "runs_validated": nruns - nbad, "events": events, "set_aside": aside, "test_commands_failing": failed,
+                                             "negative_control": "a changed result is rejected by TraceInterp!EngEnd at exactly that event"}
+
+
+def run_repo_tests(ctx, which, doc, target="repo-tests-target"):
     """Run /repo's own tests (working tree) with the recorder hooks on; -> (trace dir, failing commands)."""
     import shutil
     tdir = os.path.join(ctx.workdir, "test-traces")
     shutil.rmtree(tdir, ignore_errors=True)
     os.makedirs(tdir)
-    env = {"RUSTFLAGS": "--cfg rbpf_verif", "CARGO_TARGET_DIR": os.path.join(WORK, "repo-tests-target"),
+    env = {"RUSTFLAGS": "--cfg rbpf_verif", "CARGO_TARGET_DIR": os.path.join(WORK, target),
            "RBPF_VERIF_TRACE_DIR": tdir, "CARGO_NET_OFFLINE": "true"}
     cmds = [["cargo", "test", "--offline", "-j", "8"] + which]
     if doc:
@@ -401,6 +452,7 @@ def run_C03(ctx):
     ctx.disagreements_checked = rep.get("disagreements_checked", 0)
     # direction A: random structured programs on both engines, adjudicated by the trace specification
     trace_interp(ctx, "structured", 150 if ctx.quick else 4000, mode="structured")
+    repo_engine_traces(ctx, "jit")
 
 
 def run_C04(ctx):
@@ -412,6 +464,7 @@ def run_C04(ctx):
     rep = replay_exec(ctx, "isa", recs, ["cl"], pair="interp")
     ctx.disagreements_checked = rep.get("disagreements_checked", 0)
     trace_interp(ctx, "structured", 150 if ctx.quick else 4000, mode="structured")
+    repo_engine_traces(ctx, "cl")
 
 
 def run_C02(ctx):
